@@ -34,10 +34,9 @@ func c04(c *Ctx) {
 	r.Declines("the counting itself (at least minMember members) and interleavings across several plugin calls")
 
 	// ---- PARTITION
-	r.Rule("PARTITION: for each insertion M[k]=pod with M in {PendingChildren,WaitingForBindChildren,BoundChildren} in a method of Gang, for each other set M': delete(M',k) is executed on every path through the insertion, or the insertion is dominated by an absence test of k in M'; exemptions are listed with a reason")
+	r.Rule("PARTITION: for each insertion M[k]=pod with M in {PendingChildren,WaitingForBindChildren,BoundChildren} in a method of Gang, for each other set M': delete(M',k) is executed on every path through the insertion, or the insertion is dominated by an absence test of k in M', or the insertion is a MOVE out of a third set M'' (dominated by a presence test of k in M'' whose entry is deleted on every path: the sets are disjoint before, so k was in neither M nor M'); exemptions are listed with a reason")
 	exempt := map[string]string{
 		"addAssumedPod/WaitingForBindChildren/BoundChildren": "Permit never runs for a pod after its PostBind without a pod deletion in between (scheduler framework contract)",
-		"delAssumedPod/PendingChildren/BoundChildren":        "Unreserve for a pod that reached PostBind does not happen (scheduler framework contract: PostBind is the last extension point)",
 	}
 	usedExempt := map[string]bool{}
 	nIns := 0
@@ -91,6 +90,37 @@ func c04(c *Ctx) {
 	c04podgroup(c)
 	c04groupKey(c)
 
+	// ---- the irreversible flag
+	r.Rule("WHO(once satisfied): GangGroupInfo.setResourceSatisfied / Gang.setResourceSatisfied are called only inside Gang.addBoundPod, inside the Gang wrapper itself, or behind a call of addBoundPod in the same function on every path (the flag is irreversible and lets later members through Permit alone: it may be set only where a member is really bound, never at Permit/Allow time, where the bind can still fail)")
+	nSet := 0
+	for _, fn := range c.PkgFuncs(gangCorePkg) {
+		nIn := 0
+		for _, cl := range an.Calls(fn, false) {
+			if an.ShortCallee(cl.Common()) != "setResourceSatisfied" {
+				continue
+			}
+			nSet++
+			nIn++
+			ok := false
+			recvT := ""
+			if rv := an.Receiver(fn); rv != nil {
+				recvT = rv.Type().String()
+			}
+			switch {
+			case strings.HasSuffix(recvT, ".Gang") && (fn.Name() == "addBoundPod" || fn.Name() == "setResourceSatisfied"):
+				ok = true
+			default:
+				for _, b := range an.Calls(fn, false) {
+					if an.ShortCallee(b.Common()) == "addBoundPod" && mustPass(b, cl) {
+						ok = true
+					}
+				}
+			}
+			r.Check(ok, "WHO", sprintf("%s/once-satisfied#%d", fkey(fn), nIn), c.InstrPos(cl), "set only where a member is bound", "the gang group is recorded as 'resources satisfied once' at a point where no member has been bound: if the binding then fails, the stale flag lets single members through Permit and stops the strict-mode rejection")
+		}
+	}
+	r.Floor("WHO", "calls of setResourceSatisfied", nSet, 3)
+
 	// ---- LOCK
 	r.Rule("LOCK: Gang.{Children,PendingChildren,WaitingForBindChildren,BoundChildren} are read under Gang.lock and written under the write lock")
 	c.RunLock("LOCK", LockCfg{Pkg: gangCorePkg, Type: "Gang", Mutex: "lock",
@@ -131,6 +161,42 @@ func partitionPaired(fn *ssa.Function, recv ssa.Value, mu *ssa.MapUpdate, other 
 	for _, g := range an.Guards(mu) {
 		if lk := absenceTest(g, recv, other); lk != nil && an.Path(lk.Index) == kp {
 			return "dominated by an absence test in " + other
+		}
+	}
+	// (c) a move out of a third set: presence test of k there, and its entry deleted on every path through the insertion
+	for _, g := range an.Guards(mu) {
+		e, ok := g.Cond.(*ssa.Extract)
+		if !ok || e.Index != 1 || !g.Truth {
+			continue
+		}
+		lk, ok := e.Tuple.(*ssa.Lookup)
+		if !ok || !lk.CommaOk || an.Path(lk.Index) != kp {
+			continue
+		}
+		third := ""
+		for _, ch := range an.Chains(lk.X) {
+			if ch.Root == recv && inList(gangPartition, ch.First()) {
+				third = ch.First()
+			}
+		}
+		if third == "" || third == other {
+			continue
+		}
+		for _, e2 := range effs {
+			if e2.Op != "mapdelete" || e2.Chain.First() != third || len(e2.Chain.Elems) != 2 {
+				continue
+			}
+			del := e2.Instr.(ssa.CallInstruction)
+			if an.Path(del.Common().Args[1]) != kp {
+				continue
+			}
+			if instrBefore(del, mu) {
+				return "moved out of " + third + " (present there, removed before the insertion)"
+			}
+			reach := an.Explore(fn, an.After(mu), nil, func(in ssa.Instruction) bool { return in == ssa.Instruction(del) })
+			if len(reach.Returns()) == 0 {
+				return "moved out of " + third + " (present there, removed on every path)"
+			}
 		}
 	}
 	return ""
